@@ -696,6 +696,9 @@ func (h *harness) afterFault(op *wop, out outcome, before, after map[raftio.Node
 			swallowed = true
 			touchedOracle = "error-swallowed"
 			h.ctx.Count("probe.error_not_surfaced", 1)
+			for id := range after {
+				cands[id] = []*RefReplica{after[id]}
+			}
 		}
 		h.commit(op, after)
 	case h.firedStep < out.logical:
@@ -858,7 +861,7 @@ func (h *harness) recoverAndVerify(cands map[raftio.NodeInfo][]*RefReplica, touc
 			}
 		}
 		if matched == nil && h.ctx.Tracing {
-			for i := uint64(1); i <= list[0].Last+2; i++ {
+			for i := list[0].Floor + 1; i <= list[0].Last; i++ {
 				e, _, err := h.db.IterateEntries(nil, 0, p.ShardID, p.ReplicaID, i, i+1, math.MaxUint64)
 				e2, _, err2 := h.db.IterateEntries(nil, 0, p.ShardID, p.ReplicaID, i, list[0].Last+3, math.MaxUint64)
 				h.ctx.Tracef("diag %d/%d IterateEntries(%d,%d) -> %d entries err=%v; (%d,%d) -> %d entries err=%v", p.ShardID, p.ReplicaID, i, i+1, len(e), err, i, list[0].Last+3, len(e2), err2)
@@ -866,13 +869,11 @@ func (h *harness) recoverAndVerify(cands map[raftio.NodeInfo][]*RefReplica, touc
 		}
 		if matched == nil {
 			oracle := touchedOracle
-			if len(list) == 1 && touchedOracle != "error-swallowed" {
+			if cands[p] == nil || (len(list) == 1 && touchedOracle != "error-swallowed") {
 				oracle = "acked-save-lost"
 				if specific(firstOracle) {
 					oracle = firstOracle
 				}
-			} else if len(list) == 1 && cands[p] == nil {
-				oracle = "acked-save-lost"
 			}
 			h.ctx.Violate("C10", oracle, "after %s (%s) replica %d/%d matches none of %d admissible states: vs newest {%s}%s",
 				h.firedAt, how, p.ShardID, p.ReplicaID, len(list), fails[0], func() string {
